@@ -14,7 +14,8 @@ TRANSPARENT = re.compile(
     r'(::clone::Clone>::clone$|^std::clone::Clone::clone$|Vec::<T(, A)?>::as_slice$|as std::ops::Deref>::deref$|'
     r'slice::<impl \[T\]>::(iter|to_vec)$|Iterator::(chain|cloned|collect)$|IntoIterator>::into_iter$|IntoIterator::into_iter$|'
     r'boxed::Box::<T>::new(_uninit)?$|boxed::box_assume_init_into_vec_unsafe$|slice::<impl \[T\]>::into_vec$|'
-    r'as std::convert::From<&\[T\]>>::from$|as std::convert::From<&.*>>::from$|FromIterator<T>>::from_iter$)')
+    r'as std::convert::From<&\[T\]>>::from$|as std::convert::From<&.*>>::from$|FromIterator<T>>::from_iter$|'
+    r'Vec::<T(, A)?>::(extend_from_slice|append|push)$|as std::iter::Extend<.*>>::extend$)')
 
 
 def params_in(v, p=None):
@@ -45,6 +46,14 @@ def tree(v, p=None, seen=None):
                     # the referenced place, its sub-places and the places it is part of
                     if k[0] == x[1][0] and (k[1][:len(x[1][1])] == x[1][1] or x[1][1][:len(k[1])] == k[1]):
                         work.append(val)
+            if x[0] == 'modified' and ('mod', x[3]) not in seen_locs:
+                # a local handed to a callee by &mut: what the callee was given may have gone into it
+                seen_locs.add(('mod', x[3]))
+                for e in p.events:
+                    if e['k'] == 'call' and e.get('site') == x[3]:
+                        out.append(('call', e['callee'], (), 0))
+                        for a in e['args']:
+                            work.append(a)
             if x[0] in ('call', 'pcall', 'boxptr', 'cast'):
                 for i, e in enumerate(p.events):
                     if e['k'] == 'store' and e['loc'][0][0] == 'ext' and ('st', i) not in seen_locs:
@@ -217,7 +226,11 @@ def check_box_test(ctx, rep, rule='B-test'):
             continue
         outcome = 'trivial' if any(True for _ in p.calls('trivial_result')) else ('full' if any(True for _ in p.calls('subdivide')) else 'other')
         conds = []
-        for (v, c) in p.conds:
+        stage = [i for i, e in enumerate(p.events) if e['k'] == 'call' and e.get('depth', 0) == 0 and
+                 (e['callee'].endswith('trivial_result') or e['callee'].endswith('::subdivide'))]
+        upto = stage[0] if stage else len(p.events)
+        early = [(e['val'], e['cond']) for e in p.events[:upto] if e['k'] == 'branch' and e.get('depth', 0) == 0]
+        for (v, c) in early:
             cc = canon_cmp(v, p, roles)
             if cc is None:
                 rep.ob(rule, 'condition-modelled', False, 'boolean_operation branches on %s, which is not a comparison of box corners'
@@ -261,11 +274,8 @@ def check_initial_boxes(ctx, rep, rule='L-empty'):
             done = True
             for idx, role in ((2, 'sbbox'), (3, 'cbbox')):
                 a = strip_upd(e['args'][idx])
-                init = None
                 # value of the local right before the call
-                for x in sym.walk(p.final.mem.get(a[1], ('c', 0))) if a[0] == 'ref' else []:
-                    if x[0] == 'modified' and x[1].endswith('fill_queue') and x[2] == idx:
-                        init = x[4]
+                init = e.get('ref_vals', {}).get(idx)
                 ok = False
                 desc = show(noepoch(init))[:140] if init is not None else 'unknown'
                 if init is not None:
@@ -307,7 +317,9 @@ def check_pipeline(ctx, rep, rule='T-pipeline'):
         if ok:
             mem = p.final.mem
             q = strip_upd(sd[0]['args'][0])
-            qv = mem.get(q[1]) if q[0] == 'ref' else None
+            qv = sd[0].get('ref_vals', {}).get(0)
+            if qv is None:
+                qv = mem.get(q[1]) if q[0] == 'ref' else None
             q_ok = qv is not None and any(x[0] == 'call' and x[1].endswith('fill_queue') for x in sym.walk(qv))
             s_box = strip_upd(sd[0]['args'][1])
             c_box = strip_upd(sd[0]['args'][2])
@@ -316,6 +328,17 @@ def check_pipeline(ctx, rep, rule='T-pipeline'):
             op_ok = params_in(sd[0]['args'][3]) == {'operation'}
             ce_ok = any(x[0] == 'call' and x[1].endswith('subdivide') for x in tree(ce[0]['args'][0], p))
             ret_ok = any(x[0] == 'call' and x[1].endswith('connect_edges') for x in tree(p.ret, p))
+            if not ret_ok:
+                # the polygon list is a loop-carried local filled by push(Polygon::new(..)) (what goes into it is T-assemble's business)
+                r_ = strip_upd(p.ret)
+                pl = strip_upd(r_[4][0]) if r_[0] == 'agg' and r_[4] else r_
+                if pl[0] == 'havoc':
+                    for q in ps:
+                        for e2 in q.calls():
+                            tg = strip_upd(e2['args'][0]) if e2['args'] else ('c', 0)
+                            if e2['callee'].endswith('::push') and 'Vec' in e2['callee'] and tg[0] == 'ref' and tg[1][0][0] == 'loc' \
+                                    and tg[1][0][2] == pl[2] and any(x[0] == 'call' and x[1].endswith('Polygon::<T>::new') for x in sym.walk(e2['args'][1])):
+                                ret_ok = True
             ok = q_ok and boxes_ok and op_ok and ce_ok and ret_ok
             msg = 'queue-from-fill_queue=%s, boxes (sbbox, cbbox) passed in the same roles=%s, operation passed on=%s, ' \
                   'connect_edges(subdivide result)=%s, result built from the contours=%s' % (q_ok, boxes_ok, op_ok, ce_ok, ret_ok)
@@ -335,72 +358,263 @@ def own_field(v, field, wrapped=True):
     return False
 
 
+def _base_of(v):
+    """the value a chain of field / deref / variant / reference projections starts from"""
+    x = strip_upd(v)
+    for _ in range(40):
+        if x[0] in ('deref', 'refval', 'rcptr') and len(x) > 1:
+            x = strip_upd(x[1])
+        elif x[0] in ('field', 'variant'):
+            x = strip_upd(x[1])
+        elif x[0] == 'ref' and x[1][0][0] == 'ext':
+            x = strip_upd(x[1][0][1])
+        else:
+            break
+    return x
+
+
+def _last_field(v):
+    x = strip_upd(v)
+    for _ in range(40):
+        if x[0] == 'ref' and x[1][1] and x[1][1][-1][0] == 'f':
+            return x[1][1][-1][1]
+        if x[0] == 'field':
+            return x[2]
+        if x[0] in ('deref', 'refval') and len(x) > 1:
+            x = strip_upd(x[1])
+            continue
+        if x[0] in ('call', 'pcall') and TRANSPARENT.search(x[1]) and len(x[2]) == 1:
+            x = strip_upd(x[2][0])
+            continue
+        break
+    return None
+
+
+def _unwrap_transparent(v):
+    x = strip_upd(v)
+    while x[0] in ('call', 'pcall') and TRANSPARENT.search(x[1]) and len(x[2]) == 1:
+        x = strip_upd(x[2][0])
+    return x
+
+
+class _Unit:
+    """where polygons are built: the closure mapped over the contours (the contour is its argument) or the body of a loop over
+    the contours (the contour is the payload of that loop's iterator)"""
+
+    def __init__(self, body, paths, kind):
+        self.body, self.paths, self.kind = body, paths, kind
+
+    def iter_kind(self, nxt, p):
+        """'contours' / 'hole_ids' / None for the iterator a `next` call advances"""
+        for x in self._iter_state(nxt, p):
+            if x[0] in ('call', 'pcall') and (x[1].endswith('into_iter') or x[1].endswith('::iter')) and x[2]:
+                src = x[2][0]
+                if any(y[0] == 'call' and y[1].endswith('connect_edges') for y in tree(src, p)):
+                    return 'contours'
+                if _last_field(src) == 'hole_ids' and self.own(src, p, allow_iter=False):
+                    return 'hole_ids'
+        return None
+
+    def _iter_state(self, nxt, p):
+        """sub-terms of the iterator a `next` call advances: its current value and, for a loop-carried iterator, the value it had
+        when the loop was entered (the state itself is havocked at the loop head)"""
+        arg = nxt[2][0] if nxt[0] in ('call', 'pcall') and nxt[2] else nxt
+        out = list(tree(arg, p))
+        a = strip_upd(arg)
+        if a[0] == 'ref' and a[1][0][0] == 'loc':
+            for e in p.events:
+                if e['k'] == 'loophead' and a[1][0][2] in e.get('pre', {}):
+                    out += tree(e['pre'][a[1][0][2]], p)
+        return out
+
+    def own(self, v, p, allow_iter=True):
+        b = _base_of(_unwrap_transparent(v))
+        if self.kind == 'closure':
+            return b[0] == 'param' and b[1] == 2
+        if b[0] in ('call', 'pcall') and b[1].endswith('::next') and allow_iter is not None:
+            return self.iter_kind(b, p) == 'contours' if allow_iter else self._is_contour_next(b, p)
+        return False
+
+    def _is_contour_next(self, b, p):
+        for x in self._iter_state(b, p):
+            if x[0] in ('call', 'pcall') and (x[1].endswith('into_iter') or x[1].endswith('::iter')) and x[2]:
+                if any(y[0] == 'call' and y[1].endswith('connect_edges') for y in tree(x[2][0], p)):
+                    return True
+        return False
+
+    def contours_value(self, v, p):
+        """v denotes the whole contour list (closure environment / the local holding connect_edges' result)"""
+        if self.kind == 'closure' and any(x[0] == 'param' and x[1] == 1 for x in sym.walk(v)):
+            return True
+        return any(y[0] == 'call' and y[1].endswith('connect_edges') for y in tree(v, p))
+
+
+def _hole_ring_ok(unit, v, p, idx_own):
+    """v is LineString(clone(contours[h].points)) with h = idx_own(index value)"""
+    v = strip_upd(v)
+    if not (v[0] == 'agg' and v[5].endswith('LineString') and len(v[4]) == 1):
+        return False
+    r = _unwrap_transparent(v[4][0])
+    if _last_field(r) != 'points':
+        return False
+    ix = _base_of(r)
+    if not (ix[0] in ('call', 'pcall') and re.search(r'Index<.*>>::index$', ix[1]) and len(ix[2]) == 2):
+        return False
+    return unit.contours_value(ix[2][0], p) and idx_own(ix[2][1])
+
+
 def check_assemble(ctx, rep, rule='T-assemble'):
     """polygons are emitted for exterior contours only; exterior ring = that contour's points; holes = points of the contours
-    listed in that contour's hole_ids"""
+    listed in that contour's hole_ids.  Accepted forms: contours.iter().filter(f).map(m).collect() or a loop over the contours
+    with a guard; holes pushed in a loop over hole_ids or hole_ids.iter().map(h).collect()."""
     f = ctx.facts()
     b, ps = rep.explore(ctx, BOOLOP, rule)
     if b is None:
         return
-    closures = sorted(n for n in f.bodies if n.startswith(BOOLOP + '::{closure#'))
-    rep.floor(rule, 'closures of boolean_operation', len(closures), 2)
     filt = mapper = None
     for p in ps:
         for e in p.calls():
-            if e['callee'].endswith('Iterator::filter'):
+            if e['callee'].endswith('Iterator::filter') and len(e['args']) == 2:
                 c = strip_upd(e['args'][1])
-                filt = c[2] if c[0] == 'agg' and c[1] == 'closure' else None
-                src = e['args'][0]
-                src_ok = any(x[0] == 'call' and x[1].endswith('connect_edges') for x in tree(src, p))
-                rep.ob(rule, 'iterates-contours', src_ok, 'the polygon list is not built by iterating the contours of connect_edges',
-                       loc=b.loc(e['line']), reason='provenance')
-            if e['callee'].endswith('Iterator::map'):
+                if c[0] == 'agg' and c[1] == 'closure' and any(x[0] == 'call' and x[1].endswith('connect_edges') for x in tree(e['args'][0], p)):
+                    filt = c[2]
+            if e['callee'].endswith('Iterator::map') and len(e['args']) == 2:
                 c = strip_upd(e['args'][1])
-                mapper = c[2] if c[0] == 'agg' and c[1] == 'closure' else None
-    rep.ob(rule, 'filter-then-map', filt is not None and mapper is not None,
-           'expected contours.iter().filter(<closure>).map(<closure>)', loc=b.loc(b.j['line_lo']), reason='anchor-missing')
-    if filt:
-        bf, pf = rep.explore(ctx, filt, rule)
-        ok = False
-        found = None
-        for p in pf:
-            if p.end == 'return':
+                if c[0] == 'agg' and c[1] == 'closure' and any(x[0] == 'call' and x[1].endswith('connect_edges') for x in tree(e['args'][0], p)):
+                    mapper = c[2]
+    guard_ok = None
+    if mapper is not None:
+        bm, pm = rep.explore(ctx, mapper, rule)
+        unit = _Unit(bm, pm or [], 'closure')
+        # the guard is the filter closure
+        if filt is not None:
+            bf, pf = rep.explore(ctx, filt, rule)
+            guard_ok = bool(pf)
+            found = None
+            for p in pf or []:
+                if p.end != 'return':
+                    continue
                 r = strip_upd(p.ret)
                 found = show(noepoch(r))[:100]
-                ok = r[0] in ('pcall', 'call') and r[1].endswith('Option::<T>::is_none') and 'hole_of' in show(noepoch(r[2][0]))
-        rep.ob(rule, 'only-exterior-contours', ok and len(pf) == 1,
-               'a polygon must be emitted exactly for contours with hole_of == None; the filter returns %s' % found,
-               loc=bf.loc(bf.j['line_lo']) if bf else None, reason='table-row')
-    if mapper:
-        bm, pm = rep.explore(ctx, mapper, rule)
-        ext_ok = holes_ok = False
-        ext_found = holes_found = None
-        for p in pm:
+                arg_ok = r[0] in ('pcall', 'call') and r[1].endswith('Option::<T>::is_none') and _last_field(r[2][0]) == 'hole_of' \
+                    and _base_of(r[2][0])[0] == 'param' and _base_of(r[2][0])[1] == 2
+                guard_ok = guard_ok and arg_ok and not p.conds
+            rep.ob(rule, 'only-exterior-contours', bool(guard_ok),
+                   'a polygon must be emitted exactly for contours with hole_of == None; the filter returns %s' % found,
+                   loc=bf.loc(bf.j['line_lo']) if bf else None, reason='table-row')
+        else:
+            rep.ob(rule, 'only-exterior-contours', False, 'the contours are mapped to polygons without a filter on hole_of',
+                   loc=b.loc(b.j['line_lo']), reason='table-row')
+    else:
+        unit = _Unit(b, ps, 'loop')
+    # polygon creation sites
+    n_poly = 0
+    ext_ok = True
+    ext_found = None
+    holes_src_ok = True
+    hole_locals = set()
+    hole_closures = set()
+    for p in unit.paths:
+        for e in p.calls():
+            if not e['callee'].endswith('Polygon::<T>::new'):
+                continue
+            n_poly += 1
+            ex = strip_upd(e['args'][0])
+            ext_found = show(noepoch(ex))[:100]
+            ok = ex[0] == 'agg' and ex[5].endswith('LineString') and len(ex[4]) == 1
+            if ok:
+                inner = _unwrap_transparent(ex[4][0])
+                ok = _last_field(inner) == 'points' and unit.own(inner, p) and _base_of(inner)[0] != 'call' or \
+                    (_last_field(inner) == 'points' and unit.own(inner, p))
+            ext_ok = ext_ok and ok
+            if unit.kind == 'loop':
+                # guard: the path must have established hole_of == None for the same contour
+                g = False
+                for (v, c) in p.conds:
+                    x = strip_upd(v)
+                    if x[0] in ('call', 'pcall') and x[1].endswith('Option::<T>::is_none') and _last_field(x[2][0]) == 'hole_of' \
+                            and unit.own(x[2][0], p) and bool(c[1]) is True:
+                        g = True
+                    if x[0] == 'discr' and _last_field(x[1]) == 'hole_of' and unit.own(x[1], p) and c == ('eq', 0):
+                        g = True
+                guard_ok = g if guard_ok is None else (guard_ok and g)
+            # the holes argument: a local filled by pushes, or collect(map(iter(own.hole_ids), closure))
+            hv = strip_upd(e['args'][1])
+            srcs = [x for x in tree(hv, p) if x[0] in ('call', 'pcall') and x[1].endswith('Iterator::map') and len(x[2]) == 2]
+            if srcs:
+                c = strip_upd(srcs[0][2][1])
+                recv = _unwrap_transparent(srcs[0][2][0])
+                recv_ok = _last_field(recv) == 'hole_ids' and unit.own(recv, p)
+                if c[0] == 'agg' and c[1] == 'closure' and recv_ok:
+                    hole_closures.add(c[2])
+                else:
+                    holes_src_ok = False
+            elif hv[0] == 'havoc':
+                hole_locals.add(hv[2])
+            elif hv[0] == 'vec' and hv[1] == ():
+                pass            # no holes on this path (empty list built on the path)
+            else:
+                loc_refs = [x for x in sym.walk(hv) if x[0] == 'ref' and x[1][0][0] == 'loc']
+                if loc_refs:
+                    hole_locals.update(x[1][0][2] for x in loc_refs)
+                else:
+                    holes_src_ok = False
+    if unit.kind == 'loop':
+        rep.ob(rule, 'only-exterior-contours', bool(guard_ok),
+               'a polygon must be emitted exactly for contours with hole_of == None: the loop over the contours builds a polygon on a path '
+               'that has not tested hole_of of the current contour', loc=b.loc(b.j['line_lo']), reason='table-row')
+        # and every exterior contour gets one: the paths with hole_of == None that reach the next contour build a polygon
+        missing = False
+        for p in unit.paths:
+            if p.end != 'backedge':
+                continue
+            is_ext = any(strip_upd(v)[0] in ('call', 'pcall') and strip_upd(v)[1].endswith('Option::<T>::is_none') and bool(c[1]) and
+                         _last_field(strip_upd(v)[2][0]) == 'hole_of' and unit.own(strip_upd(v)[2][0], p) for (v, c) in p.conds)
+            outer = any(e['k'] == 'loophead' and e['bb'] == p.end_info for e in p.events) and \
+                not any(e['callee'].endswith('::next') and unit.iter_kind(strip_upd(e['ret']), p) == 'hole_ids' and
+                        any(strip_upd(v)[0] == 'discr' and strip_upd(strip_upd(v)[1]) == strip_upd(e['ret']) and c == ('eq', 1) for (v, c) in p.conds)
+                        for e in p.calls())
+            if is_ext and outer and not any(e['callee'].endswith('Polygon::<T>::new') for e in p.calls()):
+                missing = True
+        rep.ob(rule, 'every-exterior-contour-emitted', not missing, 'a path through the loop over the contours skips an exterior contour',
+               loc=b.loc(b.j['line_lo']), reason='table-row')
+    rep.ob(rule, 'polygon-built-per-contour', n_poly >= 1, 'no Polygon::new found where the contours are turned into polygons',
+           loc=b.loc(b.j['line_lo']), reason='anchor-missing')
+    rep.ob(rule, 'exterior-ring-from-own-points', ext_ok and n_poly >= 1,
+           'the exterior ring must be a clone of the contour\'s own points; found %s' % ext_found,
+           loc=unit.body.loc(unit.body.j['line_lo']), reason='provenance')
+    # the holes
+    holes_ok = holes_src_ok and bool(hole_locals or hole_closures)
+    holes_found = None
+    n_hole_sites = 0
+    for hc in sorted(hole_closures):
+        bh, ph = rep.explore(ctx, hc, rule)
+        for p in ph or []:
+            if p.end != 'return':
+                continue
+            n_hole_sites += 1
+            holes_found = show(noepoch(p.ret))[:140]
+            hunit = _Unit(bh, ph, 'closure')
+            ok = _hole_ring_ok(hunit, p.ret, p, lambda ix: _base_of(ix)[0] == 'param' and _base_of(ix)[1] == 2 or
+                               any(x[0] == 'param' and x[1] == 2 for x in sym.walk(ix)))
+            holes_ok = holes_ok and ok
+    if hole_locals:
+        for p in unit.paths:
             for e in p.calls():
-                if e['callee'].endswith('Polygon::<T>::new'):
-                    ex = strip_upd(e['args'][0])
-                    ext_found = show(noepoch(ex))[:100]
-                    s = show(noepoch(ex))
-                    ext_ok = ex[0] == 'agg' and ex[5].endswith('LineString') and len(ex[4]) == 1 and own_field(ex[4][0], 'points')
-                if e['callee'].endswith('::push') and 'Vec' in e['callee']:
-                    s = show(noepoch(e['args'][1]))
-                    holes_found = s[:160]
-                    # LineString(contours[*hole_id as usize].points.clone()) with hole_id drawn from &contour.hole_ids
-                    it_ok = any(c['callee'].endswith('into_iter') and own_field(c['args'][0], 'hole_ids', wrapped=False) for c in p.calls())
-                    v = strip_upd(e['args'][1])
-                    holes_ok = False
-                    if it_ok and v[0] == 'agg' and v[5].endswith('LineString') and len(v[4]) == 1:
-                        cl = strip_upd(v[4][0])
-                        if cl[0] in ('call', 'pcall') and TRANSPARENT.search(cl[1]) and len(cl[2]) == 1:
-                            r = strip_upd(cl[2][0])
-                            if r[0] == 'ref' and r[1][1] == (('f', 'points'),) and r[1][0][0] == 'ext':
-                                ix = strip_upd(r[1][0][1])
-                                if ix[0] in ('call', 'pcall') and re.search(r'Index<.*>>::index$', ix[1]) and len(ix[2]) == 2:
-                                    from_env = any(x[0] == 'param' and x[1] == 1 for x in sym.walk(ix[2][0]))
-                                    from_iter = any(x[0] in ('call', 'pcall') and x[1].endswith('::next') for x in sym.walk(ix[2][1]))
-                                    holes_ok = from_env and from_iter
-        rep.ob(rule, 'exterior-ring-from-own-points', ext_ok, 'the exterior ring must be a clone of the contour\'s own points; found %s' % ext_found,
-               loc=bm.loc(bm.j['line_lo']) if bm else None, reason='provenance')
-        rep.ob(rule, 'holes-from-own-hole_ids', holes_ok,
-               'interior rings must be the points of contours[h] for h in this contour\'s hole_ids; found %s' % holes_found,
-               loc=bm.loc(bm.j['line_lo']) if bm else None, reason='provenance')
+                if not (e['callee'].endswith('::push') and 'Vec' in e['callee']):
+                    continue
+                tgt = strip_upd(e['args'][0])
+                if not (tgt[0] == 'ref' and tgt[1][0][0] == 'loc' and tgt[1][0][2] in hole_locals):
+                    continue
+                n_hole_sites += 1
+                holes_found = show(noepoch(e['args'][1]))[:160]
+
+                def idx_own(ix, p=p):
+                    for x in sym.walk(ix):
+                        if x[0] in ('call', 'pcall') and x[1].endswith('::next') and unit.iter_kind(x, p) == 'hole_ids':
+                            return True
+                    return False
+                holes_ok = holes_ok and _hole_ring_ok(unit, e['args'][1], p, idx_own)
+    rep.ob(rule, 'holes-from-own-hole_ids', holes_ok and n_hole_sites >= 1,
+           'interior rings must be the points of contours[h] for h in this contour\'s hole_ids; found %s' % holes_found,
+           loc=unit.body.loc(unit.body.j['line_lo']), reason='provenance')
